@@ -213,7 +213,7 @@ def run_compare(ctx, quick):
     byid = {e["id"]: e for e in events}
     for i, clause in sorted(rej.items()):
         e = byid[i]
-        ctx.violation("compare/%s/%s" % (e["ev"], clause), "%s on track1 %s track2 %s -> %s %s: %s" %
+        ctx.growth("compare/%s/%s" % (e["ev"], clause), "%s on track1 %s track2 %s -> %s %s: %s" %
                       ("match(NN)" if e["ev"] == "nn" else "compare(POINTWISE, p=%s)" % e["p"], e["a"], e["b"],
                        e.get("pairs", e.get("val")), e.get("exc", ""), clause), e)
     ctx.extra["nn_and_pointwise_records"] = len(events)
